@@ -315,13 +315,16 @@ def simulate_concurrently(runs, switch_interval=1e-5, timeout=240):
     SIM_EVENTS.clear()
     old = sys.getswitchinterval()
     sys.setswitchinterval(switch_interval)
+    inj = instrument._YieldInjector()  # hand the interpreter over between any two library statements
     try:
+        inj.start()
         th = [threading.Thread(target=work, args=(k,), daemon=True) for k in range(len(runs))]
         for t in th:
             t.start()
         for t in th:
             t.join(timeout)
     finally:
+        inj.stop()
         sys.setswitchinterval(old)
     if any(t.is_alive() for t in th):
         errs.append((-1, "thread still running after the time-out"))
